@@ -728,6 +728,42 @@ func (sc *SpecCtx) call(x *ast.CallExpr) SV {
 				}
 				it := sc.ex.val(sc.ex.strIters[n-1])
 				return SV{sel(q.heapGet(sc.curHeap(), sc.ex.regKey("IT:pos", arrSort(sInt, sInt))), it), types.Typ[types.Int]}
+			case "ghost":
+				// ghost("name", ref): ghost (specification-only) integer state attached to a reference
+				bl, ok := x.Args[0].(*ast.BasicLit)
+				if !ok || len(x.Args) != 2 {
+					sc.fail("ghost(\"name\", ref)")
+				}
+				name, _ := strconv.Unquote(bl.Value)
+				key := sc.ex.regKey("GH:"+name, arrSort(sInt, sInt))
+				r := sc.eval(x.Args[1])
+				return SV{sel(q.heapGet(sc.curHeap(), key), r.t), types.Typ[types.Int]}
+			case "ifaceval":
+				v := sc.eval(x.Args[0])
+				if v.t.Sort != sIface {
+					sc.fail("ifaceval of non-interface")
+				}
+				return SV{ifVal(v.t), types.Typ[types.Int]}
+			case "uf":
+				// uf("name", args...): uninterpreted integer-valued specification function
+				bl, ok := x.Args[0].(*ast.BasicLit)
+				if !ok {
+					sc.fail("uf(\"name\", args...)")
+				}
+				name, _ := strconv.Unquote(bl.Value)
+				var args []Term
+				sig := "("
+				for i, a := range x.Args[1:] {
+					v := sc.eval(a)
+					args = append(args, v.t)
+					if i > 0 {
+						sig += " "
+					}
+					sig += v.t.Sort
+				}
+				sig += ") Int"
+				q.declFun("ufs_"+sanitize(name), sig)
+				return SV{app(sInt, "ufs_"+sanitize(name), args...), types.Typ[types.Int]}
 			case "ghostconst":
 				// ghostconst("name"): a global uninterpreted integer constant shared by all contracts
 				bl, ok := x.Args[0].(*ast.BasicLit)
